@@ -28,7 +28,7 @@
      (end of with)                                           D_Unlock2  mutex.release()
    error path: (end of with)                                 D_ErrUnlock  mutex.release(), then D_Failed
 *)
-From Coq Require Import List Arith Bool ZArith.
+From Coq Require Import List Arith Bool ZArith Uint63.
 Import ListNotations.
 Require Import RV.Model.C11Base.
 
@@ -191,3 +191,7 @@ Fixpoint ltrace (sched : list nat) (s : lstate) : list (list Z) :=
 
 Definition lrun_case (c : list (list nat) * list nat) : list (list Z) :=
   let s0 := linit (fst c) in lobserve s0 :: ltrace (snd c) s0.
+
+(* compact form used by the generated correspondence files: schedule and trace packed in 63-bit words *)
+Definition lrun_case_z (c : list (list nat) * (nat * list Uint63.int)) : list Uint63.int :=
+  map Uint63.of_Z (enc_trace (lrun_case (fst c, decode_sched (fst (snd c)) (map Uint63.to_Z (snd (snd c)))))).
